@@ -353,7 +353,9 @@ Proof.
     { apply coh_not_woken; [exact C|]. rewrite Ep. apply not_woken_pc_idle. }
     destruct (take_idle k (idle s)) as [x|] eqn:Ei.
     + injection H as <-. apply proceed_coh; assumption.
-    + destruct (connect_must_wait (avail c s k)); injection H as <-; [|apply proceed_coh; assumption].
+    + destruct (connect_must_wait (avail c s k)); [|injection H as <-; apply proceed_coh; assumption].
+      destruct (refuse_wait s); injection H as <-.
+      { apply coh_with_pc; [exact C|exact Hno|intro X; contradiction]. }
       apply coh_enqueue; try assumption.
       * intro x. rewrite in_app_iff. cbn [In].
         split; [intros [A|[A|[]]]; [right; exact A|left; symmetry; exact A]
@@ -374,7 +376,9 @@ Proof.
       assert (Hnw : ~ In t (woken s1)).
       { unfold s1. cbn [with_woken woken]. intro Hin. apply filter_In in Hin as [_ Hin].
         rewrite N.eqb_refl in Hin. discriminate. }
-      destruct (wait_slot_found (avail c s1 k)); injection H as <-; [apply proceed_coh; assumption|].
+      destruct (wait_slot_found (avail c s1 k)); [injection H as <-; apply proceed_coh; assumption|].
+      destruct (refuse_wait s1); injection H as <-.
+      { apply coh_with_pc; [exact C1|exact Hno|intro X; contradiction]. }
       apply coh_enqueue; try assumption.
       * intro x. cbn [In]. split; (intros [E|E]; [left; symmetry; exact E|right; exact E]).
       * cbn [map]. constructor; [exact Hno|]. destruct C1 as (_ & C2 & _). exact C2.
